@@ -285,6 +285,8 @@ def drain(ctx):
 
         def assume(self, atom, truth, v):
             t = norm(atom)
+            if 'self._packets' in t and t.startswith('any(') and truth and v in ('lowered', 'zero'):
+                return ('queued',)  # packets of this connection still wait for a buffer: not drained yet
             if t.endswith('.in_flight == 0') or t.startswith('not ') and t.endswith('.in_flight'):
                 if v == 'zero' and not truth:
                     return ()
@@ -302,11 +304,31 @@ def drain(ctx):
     sets = [c for c in calls_in(fl) if (dotted(c.func) or '').endswith('.drained.set')]
     R.check(bool(pops) and bool(sets), rule, f'{Q}.flush | discarded state releases waiters',
             'flush pops the per-connection state and sets its drained event', 'flush discards per-connection state without setting its drained event (drain() waits forever)', p.loc(fl))
-    # clear only in _check_queue
+    # the event is cleared when a packet is accepted for the connection (queued) and when one is sent
+    clears = {}
     for name, m in qc.methods.items():
         for c in calls_in(m):
-            if (dotted(c.func) or '').endswith('.drained.clear'):
-                R.check(name == '_check_queue', rule, f'{Q}.{name} | drained.clear', 'cleared only when a packet is sent', 'drained event cleared outside _check_queue', p.loc(c))
+            if norm(c.func).endswith('.drained.clear'):
+                clears.setdefault(name, []).append(c)
+                R.check(name in ('_check_queue', 'enqueue'), rule, f'{Q}.{name} | drained.clear', 'cleared only where a packet becomes pending', 'drained event cleared outside enqueue/_check_queue', p.loc(c))
+    enq = qc.methods.get('enqueue')
+    ok = False
+    if enq is not None and 'enqueue' in clears:
+        c = clears['enqueue'][0]
+        h = enq.args.args[2].arg
+        ok = norm(c.func.value.value) == f'self._connection_state[{h}]' and not paths.flat_guards(c)
+    R.check(ok, rule, f'{Q}.enqueue | queued packet marks the connection busy', 'enqueue clears the drained event of the packet\'s connection unconditionally (a packet waiting for a free buffer counts as pending)',
+            'a packet that is queued but cannot be sent yet leaves its connection marked drained: drain() returns (or raises "no such connection") while the packet has not reached the controller', p.loc(enq) if enq else '')
+    # ... and set on completion only when nothing of that connection is still queued
+    sets_c = [c for c in calls_in(opc) if (dotted(c.func) or '').endswith('.drained.set')]
+    ok = False
+    if len(sets_c) == 1:
+        g = [(t, pol) for t, pol in paths.flat_guards(sets_c[0])]
+        has_zero = any(norm(t).endswith('.in_flight == 0') and pol for t, pol in g)
+        scans_queue = any('self._packets' in norm(t) for t, pol in g)
+        ok = has_zero and scans_queue
+    R.check(ok, rule, f'{Q}.on_packets_completed | drained needs an empty queue too', 'drained is set when nothing is in flight and nothing of that connection waits in the queue',
+            'completion of the in-flight packets sets drained although packets of that connection are still queued', p.loc(opc))
     # drain awaits that very event
     aw = [n for n in walk_local(dr) if isinstance(n, ast.Await) and 'drained.wait()' in text(n)]
     R.check(bool(aw), rule, f'{Q}.drain | waits on drained', 'drain awaits the per-connection drained event', 'drain does not await the per-connection drained event', p.loc(dr))
